@@ -628,7 +628,7 @@ class Flow:
         if re.search(r"Into<.*>>::into$|::into$", name) and args:
             ra = c.get("rargs") or c.get("gargs") or []
             if len(ra) >= 2:
-                frm = self._from_impl(ra[0], ra[1])
+                frm = self._from_impl(ra[0], ra[1], fid.split("::")[0])
                 if frm is not None:
                     return self._apply_summary(fid, frm, args, 0, rest, acc, name)
         if re.search(r"(SlotMap|HashMap|BTreeMap)<.*>::(drain|iter|iter_mut|into_iter)$|(SlotMap|HashMap|BTreeMap)<.*> as std::iter::IntoIterator>::into_iter$", name) and args:
@@ -670,9 +670,10 @@ class Flow:
             cut = min(cut, self._q_operand(fid, a, marker, acc))
         return cut
 
-    def _from_impl(self, src_ty, dst_ty):
-        """workspace `impl From<src> for dst` function id, matched on the last path segment of both types"""
-        key = (src_ty, dst_ty)
+    def _from_impl(self, src_ty, dst_ty, crate=None):
+        """workspace `impl From<src> for dst` function id, matched on the last path segment of both types (type names in
+        the facts are crate-relative: when two crates define the same pair, the caller's own crate wins)"""
+        key = (src_ty, dst_ty, crate)
         cache = self.__dict__.setdefault("_from_cache", {})
         if key in cache:
             return cache[key]
@@ -685,6 +686,10 @@ class Flow:
                     m = re.match(r"std::convert::From<(.*)>$", f.trait)
                     if m and last(m.group(1)) == s_ and last(f.self_ty.get("s", "")) == d_:
                         found.append(f.id)
+        if len(found) > 1 and crate:
+            own = [x for x in found if x.split("::")[0] == crate]
+            if len(own) == 1:
+                found = own
         cache[key] = found[0] if len(found) == 1 else None
         return cache[key]
 
